@@ -5,10 +5,10 @@
 set -e
 P=$1; R=$2; T=${3:-quick}
 V=$(cd "$(dirname "$0")/.." && pwd)
-M=/work/MUT
+M=${MUT_DIR:-/work/MUT}   # several confirmations can run side by side with different MUT_DIRs
 if [ ! -d "$M" ]; then
   mkdir -p /work
-  git -C "$V" worktree add -q -f "$M" -B wt-MUT main
+  git -C "$V" worktree add -q -f "$M" -B wt-$(basename "$M") main
   # copy the build products of the main tree so that the first run is incremental
   rsync -a --include="*/" --include="*.vo" --include="*.vos" --include="*.vok" --include="*.glob" --include=".*.aux" --exclude="*" "$V/coq/" "$M/coq/"
   mkdir -p "$M/.build"
@@ -16,7 +16,7 @@ if [ ! -d "$M" ]; then
   find "$M/coq" \( -name '*.vo' -o -name '*.vos' -o -name '*.vok' -o -name '*.glob' \) -exec touch {} +
 fi
 cd "$M"
-git checkout -q wt-MUT 2>/dev/null || true
+git checkout -q wt-$(basename "$M") 2>/dev/null || true
 git reset -q --hard main
 sed -i "s#/repo/patronus#$R/patronus#g" harness/Cargo.toml
 cp -f "$R/Cargo.lock" harness/Cargo.lock 2>/dev/null || cp -f /repo/Cargo.lock harness/Cargo.lock
